@@ -13,7 +13,7 @@ func init() {
 	register(&propDef{
 		ID:          "C08",
 		Run:         ruleC08,
-		Explanation: "Decides the error discipline of the data path (structural necessary conditions of C08): every write to the output writer has its error inspected and a failed write ends the stream function with a non-nil error before any further write; scanner/gzip/open errors are returned; the file-level wrappers propagate the stream error; every CLI call site maps a non-nil error to os.Exit(c!=0) on all paths; a record and its newline are written by one call. NOT decided: OS behaviour on ENOSPC/EPIPE, short-write semantics of *os.File, Close errors, that the prefix already written is byte-correct (library).",
+		Explanation: "Decides the error discipline of the data path (structural necessary conditions of C08): every write to the output writer has its error inspected and a failed write ends the stream function with a non-nil error before any further write; scanner/gzip/open errors are returned; the file-level wrappers propagate the stream error; every CLI call site maps a non-nil error to os.Exit(c!=0) on all paths; a record and its newline are written by one call; the failure branch of the record write cuts a partially transferred line off again (a call reaching (*os.File).Truncate receives the byte count). NOT decided: OS behaviour on ENOSPC/EPIPE, short-write semantics of *os.File, Close errors, that the prefix already written is byte-correct (library).",
 		RuleText:    "obligations = write call sites on the writer parameter, scanner.Err/gzip.NewReader/Open error results, calls to the stream function and its wrappers, CLI call sites; each discharged by an SSA path query (every path from the err!=nil edge reaches a non-nil error return / non-zero exit, passing no further write)",
 	})
 }
